@@ -146,7 +146,9 @@ func judge(c *Case, wr *worldRun, rc *refCache, stateChecks bool, attrib bool) [
 			if fault != nil && !res.FaultHit {
 				fault = nil
 			}
-			ref := rc.fresh(&c.World.Models[call.Model], res.InBefore, fault, attrib)
+			// same/feedback/retry calls re-use tensor objects of earlier calls; their flavour is that of the object,
+			// which the snapshot has already turned into a plain value: only calls that build their tensors say so
+			ref := rc.freshF(&c.World.Models[call.Model], res.InBefore, res.flavour, fault, attrib)
 			if ref.Kind != res.Kind {
 				add(fmt.Sprintf("outcome-kind-differs:%s->%s:%s", ref.Kind, res.Kind, gi.mainOp),
 					fmt.Sprintf("returned %s (%s); the same call alone on a fresh Model returns %s (%s)", res.Kind, clip(res.Err, 160), ref.Kind, clip(ref.Err, 160)))
